@@ -11,7 +11,7 @@ Definition c13_writer (l : list Z) (ties : list bool) (impl : result (list strin
 
 (* R_tierd: model reader vs _get_simple_pref_list_and_ranks *)
 Definition c13_reader (ss : list string) (impl : result (list Z * list Z)) : bool :=
-  result_eqb (pair_eqb zs_eqb zs_eqb) (read_strings ss) impl.
+  result_eqb (prod_eqb zs_eqb zs_eqb) (read_strings ss) impl.
 
 (* M_roundtrip: the implementation's writer output followed by its reader, against the specification:
    tokens denote the maximal runs, entries preserved, ranks are the dense ranks of the decisions *)
@@ -25,4 +25,4 @@ Definition c13_roundtrip (l : list Z) (ties : list bool) (impl_tokens : list str
 
 (* M_file: ranks the solver holds after loading a generated file *)
 Definition c13_file (l : list Z) (ties : list bool) (impl : list (Z * Z)) : bool :=
-  list_eqb (pair_eqb Z.eqb Z.eqb) impl (combine l (ranks_of l ties)).
+  list_eqb (prod_eqb Z.eqb Z.eqb) impl (combine l (ranks_of l ties)).
